@@ -7,7 +7,7 @@ interleaving, races included, led to it) in which the other processes are at res
 `takeLocks` / `giveLocks` of their own while the requester makes its three or four calls.  (While others are in the
 middle of theirs the protocol is deliberately conservative: two requests that exclude each other may both withdraw.) -/
 namespace EupsModel.C09
-open EupsModel.Lock (Pid Kind Err exFiles)
+open EupsModel.Lock (Pid Kind Err exFiles parentHolds)
 open EupsModel.LockR
 
 /-- "released locks leave no residue that blocks later commands": a request of either kind, made while nobody holds
@@ -107,6 +107,63 @@ theorem C09_incompatible_refused (kind : Pid → Kind) (lp : Pid → Option Pid)
   intro r; rcases r with r | r
   · exact hunrel.1 r
   · exact hunrel.2 r
+
+/-- **A refused request leaves no trace**: in any reachable state with the others at rest, a request that meets an
+unrelated holder it is incompatible with ends — after 8 calls (shared: announced, seen, withdrawn) or 3 (exclusive:
+turned away at the gate) — refused or waiting for its next attempt, with the lock directory, the lock files and every
+other process exactly as they were. -/
+theorem C09_refused_request_leaves_no_trace (kind : Pid → Kind) (lp : Pid → Option Pid) (tries : Pid → Nat)
+    (sched : List Pid) (i q : Pid) (l : Nat) (hne : q ≠ i) (hlpq : lp i ≠ some q)
+    (hex : kind i = .ex ∨ kind q = .ex)
+    (hpc : (run (init kind lp tries) sched).pc i = .mkdir l)
+    (hq : (run (init kind lp tries) sched).pc q = .hold) :
+    ∃ n, n ≤ 8 ∧
+      run (run (init kind lp tries) sched) (List.replicate n i) =
+        setPC (run (init kind lp tries) sched) i (refusedPC (kind i) l) := by
+  have h := inv_run _ sched (inv_init kind lp tries)
+  have hkind : ∀ j, (run (init kind lp tries) sched).kind j = kind j := by intro j; simp [init]
+  have hlp' : (run (init kind lp tries) sched).lp i = lp i := by simp [init]
+  generalize run (init kind lp tries) sched = s at *
+  have hqf : (s.kind q, q) ∈ s.files := h.own q (by simp [hq, hasFile])
+  have hd : s.dir = true := h.inDir (by intro e; rw [e] at hqf; simp at hqf)
+  cases hki : kind i with
+  | ex =>
+    refine ⟨3, by omega, ?_⟩
+    have hp : parentHolds (s.lp i) s.files = false := by
+      cases hph : parentHolds (s.lp i) s.files with
+      | false => rfl
+      | true =>
+        -- the one file would be the parent's, but q's file is there and q is not the parent
+        unfold parentHolds at hph
+        split at hph
+        · rename_i p f hl hf
+          rw [hf] at hqf
+          have : f = (s.kind q, q) := by
+            have := List.mem_singleton.1 hqf
+            exact this.symm
+          rw [this] at hph
+          have : q = p := by simpa using hph
+          rw [hlp', ← this] at hl
+          exact absurd hl hlpq
+        · cases hph
+    have := refuse_exclusive (s := s) (i := i) (l := l) hpc (by rw [hkind, hki]) hd hp
+    simp only [List.replicate] at this ⊢
+    rw [this]
+  | sh =>
+    refine ⟨8, by omega, ?_⟩
+    have hkq : kind q = .ex := by
+      rcases hex with hex | hex
+      · rw [hki] at hex; cases hex
+      · exact hex
+    have hnf : (Kind.sh, i) ∉ s.files := by
+      have := h.noFile (p := i) (by simp [hpc, hasFile])
+      rwa [hkind, hki] at this
+    rw [hkind, hkq] at hqf
+    have := refuse_shared (s := s) (i := i) (l := l) (q := q) hpc (by rw [hkind, hki]) hd hqf hne
+      (by rw [hlp']; exact hlpq) hnf
+    simp only [List.replicate] at this ⊢
+    rw [this]
+    cases l <;> rfl
 
 /-- non-vacuity of the grants, on one schedule with overlapping calls before the requests in question: S₁ and S₂
 acquire interleaved and share; E₀ is refused at the gate (the directory is theirs) and sleeps; after both have
